@@ -406,6 +406,17 @@ def c11_oracle(ops, outs):
         prev = peers
     for room, rounds, quiet, f, peers in final_settles(ops, outs):
         if not quiet: continue
+        # "once all members have synchronised, the row is absent everywhere": a peer that stores a deletion record of a
+        # row in a room shows no version of it in that room — also not a NEWER one written by a peer that had not seen
+        # the deletion (in the opposite arrival order the record deletes whatever version is stored)
+        for pi, p in enumerate(peers):
+            for t in p.ntombs:
+                if room != "0" and t["room"] != room: continue
+                n = p.nodes.get(t["id"])
+                if n is not None and n["room"] == t["room"] and (pi, t["id"]) not in seen:
+                    seen.add((pi, t["id"]))
+                    res.append(("deleted-row-back-after-pull", "room %s: after quiescence peer %d shows row %s (version %d) in the room of its deletion record (version %d deleted %d)" % (
+                        t["room"], pi, t["id"], n["mdate"], t["mdate"], t["ddate"])))
         for pi, p in enumerate(peers):
             for qi, q in enumerate(peers):
                 for t in q.ntombs:
